@@ -5,7 +5,7 @@
     The relational clauses (object-level = array-level, linearity, trailing zeros, Parseval, inverse) are evaluated
     here on the implementation's own outputs. *)
 From Coq Require Import ZArith QArith Qabs List Bool.
-From EQ Require Import lib.Num lib.NpList lib.Chk lib.Dft model.M_fourier.
+From EQ Require Import lib.Num lib.NpList lib.NpHelpers lib.Chk lib.Dft model.M_fourier.
 Import ListNotations.
 
 (** which: 0 Signal/AccSignal.gen_fa_spectrum(p2_plus, n) (p2opt = None: argument omitted, default 0);
@@ -38,7 +38,13 @@ Inductive case :=
 (** inverse clause on implementation outputs, even N: fas2values(fas(x)) = pad x - mean - Nyquist component *)
 | CRound (N : Z) (dt : Q) (x : list Q) (sre sim : list Q) (rtol : Q)
 (** max_fa_period from the implementation's own spectrum and frequencies; None = infinite period (bin 0) *)
-| CMaxPer (re im fr : list Q) (out : option Q) (rtol : Q).
+| CMaxPer (re im fr : list Q) (out : option Q) (rtol : Q)
+(** calc_fourier_moment(asig, n) from the object's own fa_frequencies / fa_spectrum (real and imaginary parts), pi = the rational
+    value of the float np.pi; implementation result (re, im); rtol relative to the sum of the absolute panel contributions *)
+| CMoment (n : nat) (pi : Q) (fr re im : list Q) (o : Q * Q) (rtol : Q)
+(** get_bandwidth_boore_2003(asig): the implementation's own m0, m2, m4 (each compared with the model) and its result
+    ([None] = nan + nan j); the result is compared csqrt-free: out^2 = m2^2 / (m0 m4) on the implementation's moments, Re(out) >= 0 *)
+| CBoore (pi : Q) (fr re im : list Q) (m0 m2 m4 : Q * Q) (out : option (Q * Q)) (rtol : Q).
 
 Definition qsumabs (l : list Q) : Q := fold_left (fun s v => Qred (s + Qabs v)) l 0%Q.
 Definition qsum (l : list Q) : Q := fold_left (fun s v => Qred (s + v)) l 0%Q.
@@ -83,6 +89,17 @@ Definition opt_close (rtol : Q) (a b : option Q) : bool :=
   | Some u, Some v => qclose (rtol * Qabs u) u v
   | _, _ => false
   end.
+
+(** sum of the absolute panel contributions of a moment: 2 * sum |dx| (s_i + s_{i+1}) / 2 with s = |2 pi f|^n (re^2 + im^2),
+    which bounds both parts of the integrand (2 pi f)^n (re + i im)^2 *)
+Definition moment_scale (pi : Q) (n : nat) (fr re im : list Q) : Q :=
+  let s := map2 (fun w a => Qred (Qabs w * a)) (moment_weight pi n fr) (amp2 re im) in
+  Qred (2 * qsum (map2 (fun d t => Qred (Qabs d * t / 2)) (diff fr) (map2 (fun u v => Qred (u + v)) (tl s) s))).
+Definition cclose (tol : Q) (a b : Q * Q) : bool := qclose tol (fst a) (fst b) && qclose tol (snd a) (snd b).
+Definition n1norm (z : Q * Q) : Q := Qred (Qabs (fst z) + Qabs (snd z)).
+Definition chk_moment (pi : Q) (n : nat) (fr re im : list Q) (o : Q * Q) (rtol : Q) : bool :=
+  Nat.eqb (length re) (length fr) && Nat.eqb (length im) (length fr) &&
+  cclose (rtol * moment_scale pi n fr re im) (fourier_moment pi n fr re im) o.
 
 Definition check_case (c : case) : bool :=
   match c with
@@ -133,6 +150,14 @@ Definition check_case (c : case) : bool :=
   | CMaxPer re im fr out rtol =>
     Nat.eqb (length re) (length im) && Nat.eqb (length re) (length fr) && negb (Nat.eqb (length re) 0%nat) &&
     opt_close rtol (max_fa_period re im fr) out
+  | CMoment n pi fr re im o rtol => chk_moment pi n fr re im o rtol
+  | CBoore pi fr re im m0 m2 m4 out rtol =>
+    chk_moment pi 0 fr re im m0 rtol && chk_moment pi 2 fr re im m2 rtol && chk_moment pi 4 fr re im m4 rtol &&
+    match boore_of_moments m0 m2 m4, out with
+    | None, None => true
+    | Some a, Some o => cclose (rtol * n1norm a) (csq o) a && Qleb 0 (fst o)
+    | _, _ => false
+    end
   end.
 
 (** what the model computes for a case (replay files): N, then lists *)
@@ -159,5 +184,12 @@ Definition model_out (c : case) : Z * list (list Q) :=
   | CParseval N dt x re im rtol => (N, [[Qred (dt * qsumsq (pad_trunc (Z.to_nat N) x))]])
   | CMaxPer re im fr out rtol =>
     (Z.of_nat (max_fa_bin re im), [match max_fa_period re im fr with Some p => [p] | None => [] end])
+  | CMoment n pi fr re im o rtol =>
+    let m := fourier_moment pi n fr re im in (Z.of_nat n, [[fst m; snd m]; [moment_scale pi n fr re im]])
+  | CBoore pi fr re im m0 m2 m4 out rtol =>
+    (4%Z, [[fst (fourier_moment pi 0 fr re im); snd (fourier_moment pi 0 fr re im)];
+           [fst (fourier_moment pi 2 fr re im); snd (fourier_moment pi 2 fr re im)];
+           [fst (fourier_moment pi 4 fr re im); snd (fourier_moment pi 4 fr re im)];
+           match boore_of_moments m0 m2 m4 with Some a => [fst a; snd a] | None => [] end])
   | _ => (0%Z, [])
   end.
